@@ -180,6 +180,11 @@ class UDPProxyProtocol(asyncio.DatagramProtocol):
             socks_parsed = self._parse_socks_datagram(data)
             if socks_parsed:
                 remote_addr, data = socks_parsed
+                if remote_addr == source_addr:
+                    # A datagram addressed to its own sender must never be learnt as a "far"
+                    # address: every later datagram from the client would be taken for inbound.
+                    logging.warning("Got SOCKS packet addressed to its own sender %s:%s" % source_addr)
+                    return
                 # register the destination as a known far addr
                 # this allows us to have source and dest addr on the same IP
                 # since we expect a send from client->far to happen first
